@@ -9,7 +9,10 @@ import json, os
 ids = [c['property_id'] for c in json.load(open('MANIFEST.json'))['checks']]
 print(' '.join('GcArena.Props.' + m for i in ids for m in (i, i + 's') if os.path.exists('lean/GcArena/Props/' + m + '.lean')))")
 EXES=$(grep -A1 '^\[\[lean_exe\]\]' lean/lakefile.toml | grep '^name' | sed 's/name = "\(.*\)"/\1/' | tr '\n' ' ')
-(cd lean && lake build $EXES $PROPS)
+(cd lean && lake build $EXES)
+# a property module that no longer builds is that property's violation (reported by its check with
+# the broken theorem named), not a reason to leave every other check without its driver
+(cd lean && lake build $PROPS) || echo "setup: some property modules failed to build (their checks will report it)"
 for d in harness extract_brand extract harness_layout harness_collect harness_dynroots; do
   if [ -f "$d/Cargo.toml" ]; then
     [ -f "$d/Cargo.lock" ] || cp /repo/Cargo.lock "$d/Cargo.lock"
